@@ -259,7 +259,7 @@ class RegionGraph():
             for ru, rd in self.message_order:
                 # Yedida et al. strongly recommend using updated messages for LHS (denom in our case)
                 #num = sum(pot[c] for c in self.downp[ru] if c != rd)
-                num = pot[ru]
+                num = sum(pot[c] for c in self.downp[ru] if c not in self.downp[rd])
                 num = num + sum(self.messages[r1,r2] for r1, r2 in self.N[ru, rd])
                 denom = sum(new[r1,r2] for r1,r2 in self.D[ru, rd])
                 diff = tuple(set(ru) - set(rd))
@@ -276,7 +276,7 @@ class RegionGraph():
         marginals = {}
         for r in self.cliques:
             #belief = sum(potentials[c] for c in self.downp[r]) + sum(self.messages[r1,r2] for r1,r2 in self.B[r])
-            belief = potentials[r] + sum(self.messages[r1,r2] for r1,r2 in self.B[r])
+            belief = sum(potentials[c] for c in self.downp[r]) + sum(self.messages[r1,r2] for r1,r2 in self.B[r])
             belief += np.log(self.total) - belief.logsumexp()
             marginals[r] = belief.exp()
         #print(marginals[('A','B')].datavector())
